@@ -1033,18 +1033,21 @@ pub fn c12(rec: &mut Rec, lm: &Landmarks, rng: &mut Rng, thorough: bool) {
                 m.eload_dur(TimeScale::UTC, utc.duration);
                 m.cmp(tai);
                 m.cmp(gps);
-                // the same instant held in each of the other uniform scales (rotating), on the right and on the left
-                let other = [TimeScale::TT, TimeScale::GST, TimeScale::BDT, TimeScale::QZSST][((t / NS_S as i128 + du + dt) as usize) % 4];
-                let oref: i128 = match other {
-                    TimeScale::TT => -32_184_000_000,
-                    TimeScale::GST => 3_144_268_819 * NS_S as i128,
-                    TimeScale::BDT => 3_345_062_433 * NS_S as i128,
-                    _ => 2_524_953_619 * NS_S as i128,
-                };
-                let oth = Epoch::from_duration(ns_dur(gap0 + dt - oref), other);
-                m.cmp(oth);
-                m.eload_dur(other, oth.duration);
-                m.cmp(utc);
+                // the same instant held in each of the other uniform scales, on the right and on the left (every scale with
+                // every combination: a rotation over the scales aliased with the grid and never paired BDT with the entry itself)
+                for other in [TimeScale::TT, TimeScale::GST, TimeScale::BDT, TimeScale::QZSST] {
+                    let oref: i128 = match other {
+                        TimeScale::TT => -32_184_000_000,
+                        TimeScale::GST => 3_144_268_819 * NS_S as i128,
+                        TimeScale::BDT => 3_345_062_433 * NS_S as i128,
+                        _ => 2_524_953_619 * NS_S as i128,
+                    };
+                    let oth = Epoch::from_duration(ns_dur(gap0 + dt - oref), other);
+                    m.eload_dur(TimeScale::UTC, utc.duration);
+                    m.cmp(oth);
+                    m.eload_dur(other, oth.duration);
+                    m.cmp(utc);
+                }
                 m.eload_dur(TimeScale::TAI, tai.duration);
                 m.cmp(utc);
             }
